@@ -165,6 +165,7 @@ TrFault ==
             [] ev.cls = "marker" /\ ev.op \in {"get_modified_time", "delete_file"} ->
                   (IF ev.f \in loc[A].mseen THEN GMarkUndeletable(A, ev.f) ELSE Stutter)
             [] OTHER -> GSkip(A, ev.f)
+     ELSE IF Role[A] = "reader" THEN RFault(A)
      ELSE IF InCreate(A) THEN KFault(A)
      ELSE IF ev.when = "after" THEN ev.cls = "hint" /\ ev.op \in {"write_file", "write_file_cas"} /\ AmbiguousAfterFlip(A)
      ELSE IF pc[A] \in {"rollback", "c_cleanup"} /\ ev.when # "async"
